@@ -40,3 +40,119 @@ package ed25519
 //@   requires len(s) >= 32
 //@   modifies nothing
 //@   ensures result == (!decodable(bytesOf(s[0:32])) || isneutral(smul8(decpt(bytesOf(s[0:32])))))
+
+// ---------------- verification ----------------
+
+// dom2(f, c) = "SigEd25519 no Ed25519 collisions" || f || len(c) || c  (RFC 8032), empty for plain Ed25519.
+// a point has small order iff 8 times it is the identity
+//@ spec small(b) = isneutral(smul8(decpt(b)))
+// challenge h = SHA-512(dom2(f,c) || R || A || M) mod L over the encodings exactly as supplied;
+// cb, cl are the context bytes and the context length
+//@ spec hchal(f, cb, cl, rb, ab, m) = ite(f == fPure, lea(sha512(bcat(rb, ab, m)), 0, 64) % L, lea(sha512(bcat(bconst("SigEd25519 no Ed25519 collisions"), bcons(f, bcons(cl, bnil())), cb, rb, ab, m)), 0, 64) % L)
+
+// The documented acceptance predicate: 64-byte signature, S < L, key and R decodable, no small
+// order unless ZIP-215, and [8]([S]B - [h]A - R) = O, written as [8]( ([h](-A) + [S]B) - R ).
+//@ spec vspec(pk, m, sig, f, cb, cl, zip) = len(sig) == 64 && le(sig[32:64]) < L && decodable(bytesOf(pk[0:32])) && decodable(bytesOf(sig[0:32])) && (zip || (!small(bytesOf(pk[0:32])) && !small(bytesOf(sig[0:32])))) && isneutral(smul8(psub(lc2(pneg(decpt(bytesOf(pk[0:32]))), hchal(f, cb, cl, bytesOf(sig[0:32]), bytesOf(pk[0:32]), bytesOf(m)), le(sig[32:64])), decpt(bytesOf(sig[0:32])))))
+
+//@ func verify(publicKey, message, sig, f, c, zip215)
+//@   inline writeDom2
+//@   panics len(publicKey) != 32
+//@   requires f == fPure || len(c) <= 255
+//@   modifies nothing
+//@   ensures result == vspec(publicKey, message, sig, f, bytesOf(c), len(c), zip215)
+
+//@ func Verify(publicKey, message, sig)
+//@   panics len(publicKey) != 32
+//@   modifies nothing
+//@   ensures result == vspec(publicKey, message, sig, fPure, bnil(), 0, false)
+
+// variant selected by the options: pre-hashed if Hash is SHA-512, ctx if the context is non-empty, else pure
+//@ spec variant(opts) = ite(opts.Hash == 7, fPh, ite(len(opts.Context) > 0, fCtx, fPure))
+//@ spec optsok(opts, message) = len(opts.Context) <= 255 && (opts.Hash == 0 || (opts.Hash == 7 && len(message) == 64))
+
+//@ func verifyWithOptionsNoPanic(publicKey, message, sig, opts)
+//@   modifies nothing
+//@   ensures (result1 == nil) == (optsok(*opts, message) && len(publicKey) == 32)
+//@   ensures (result1 == nil && len(opts.Context) == 0) ==> result0 == vspec(publicKey, message, sig, variant(*opts), bnil(), 0, opts.ZIP215Verify)
+//@   ensures (result1 == nil && len(opts.Context) > 0) ==> result0 == vspec(publicKey, message, sig, variant(*opts), bytesOf(opts.Context), len(opts.Context), opts.ZIP215Verify)
+//@   ensures result1 != nil ==> result0 == false
+
+// panics exactly for a wrong-length key, an over-long context, a wrong pre-hash length or an unsupported hash
+//@ func VerifyWithOptions(publicKey, message, sig, opts)
+//@   panics !(optsok(*opts, message) && len(publicKey) == 32)
+//@   modifies nothing
+//@   ensures len(opts.Context) == 0 ==> result == vspec(publicKey, message, sig, variant(*opts), bnil(), 0, opts.ZIP215Verify)
+//@   ensures len(opts.Context) > 0 ==> result == vspec(publicKey, message, sig, variant(*opts), bytesOf(opts.Context), len(opts.Context), opts.ZIP215Verify)
+
+// ---------------- keys and signing (RFC 8032 5.1.5, 5.1.6) ----------------
+
+//@ spec hseed(sk) = sha512(bytesOf(sk[0:32]))
+// secret scalar a: the first 32 octets of SHA-512(seed), little-endian, after clamping
+// (RFC 8032 5.1.5: clear the lowest three bits of the first octet, clear the highest bit of the
+// last octet, set the second highest bit of the last octet)
+//@ spec clamp0(b) = b - b % 8
+//@ spec clamp31(b) = b % 128 + 64 * (1 - (b / 64) % 2)
+//@ spec sec_a(sk) = lea(hseed(sk), 0, 32) - sel(hseed(sk), 0) + clamp0(sel(hseed(sk), 0)) + (clamp31(sel(hseed(sk), 31)) - sel(hseed(sk), 31)) << 248
+//@ spec nonce(sk, f, cb, cl, m) = ite(f == fPure, lea(sha512(bcat(barr(hseed(sk), 32, 32), m)), 0, 64) % L, lea(sha512(bcat(bconst("SigEd25519 no Ed25519 collisions"), bcons(f, bcons(cl, bnil())), cb, barr(hseed(sk), 32, 32), m)), 0, 64) % L)
+
+//@ func NewKeyFromSeed(seed)
+//@   panics len(seed) != 32
+//@   modifies nothing
+//@   ensures len(result) == 64 && fresh(result)
+//@   ensures bytesOf(result[0:32]) == bytesOf(seed[0:32])
+//@   ensures bytesOf(result[32:64]) == encpt(mulB(sec_a(seed) % L))
+
+//@ func sign(privateKey, message, f, c)
+//@   inline writeDom2
+//@   panics len(privateKey) != 64
+//@   requires f == fPure || len(c) <= 255
+//@   modifies nothing
+//@   ensures len(result) == 64 && fresh(result)
+//@   ensures bytesOf(result[0:32]) == encpt(mulB(nonce(privateKey, f, bytesOf(c), len(c), bytesOf(message))))
+//@   ensures le(result[32:64]) < L
+//@   ensures cong(le(result[32:64]), nonce(privateKey, f, bytesOf(c), len(c), bytesOf(message)) + hchal(f, bytesOf(c), len(c), bytesOf(result[0:32]), bytesOf(privateKey[32:64]), bytesOf(message)) * sec_a(privateKey), L)
+
+//@ func Sign(privateKey, message)
+//@   panics len(privateKey) != 64
+//@   modifies nothing
+//@   ensures len(result) == 64 && fresh(result)
+//@   ensures bytesOf(result[0:32]) == encpt(mulB(nonce(privateKey, fPure, bnil(), 0, bytesOf(message))))
+//@   ensures le(result[32:64]) < L
+//@   ensures cong(le(result[32:64]), nonce(privateKey, fPure, bnil(), 0, bytesOf(message)) + hchal(fPure, bnil(), 0, bytesOf(result[0:32]), bytesOf(privateKey[32:64]), bytesOf(message)) * sec_a(privateKey), L)
+
+// crypto.Signer entry point: the variant is selected by the dynamic type of opts, its Hash and its
+// Context; the entropy argument is never used.
+//@ func (PrivateKey).Sign(priv, rand, message, opts)
+//@   requires opts != nil
+//@   panics maybe
+//@   modifies nothing
+//@   ensures entropyReads() == 0
+//@   ensures result1 == nil ==> (len(result0) == 64 && fresh(result0) && le(result0[32:64]) < L)
+
+//@ func GenerateKey(rand)
+//@   modifies nothing
+//@   ensures entropyReads() == 1 && entropyRead(0) == 32
+//@   ensures result2 != nil ==> (result0 == nil && result1 == nil)
+//@   ensures result2 == nil ==> (len(result0) == 32 && len(result1) == 64 && fresh(result0) && fresh(result1) && bytesOf(result0[0:32]) == bytesOf(result1[32:64]))
+//@   ensures result2 == nil ==> bytesOf(result1[32:64]) == encpt(mulB(sec_a(result1) % L))
+
+//@ func (PrivateKey).Seed(priv)
+//@   requires len(priv) >= 32
+//@   modifies nothing
+//@   ensures len(result) == 32 && fresh(result) && bytesOf(result[0:32]) == bytesOf(priv[0:32])
+
+//@ func (PrivateKey).Public(priv)
+//@   requires len(priv) == 64
+//@   modifies nothing
+//@   ensures len(unwrap(result)) == 32 && fresh(result) && bytesOf(unwrap(result)[0:32]) == bytesOf(priv[32:64])
+
+// Equal is true exactly for byte-identical keys of the same type
+//@ func (PrivateKey).Equal(priv, x)
+//@   modifies nothing
+//@   ensures istype(x) ==> result == (len(priv) == len(astype(x)) && bytesOf(priv) == bytesOf(astype(x)))
+//@   ensures !istype(x) ==> result == false
+
+//@ func (PublicKey).Equal(pub, x)
+//@   modifies nothing
+//@   ensures istype(x) ==> result == (len(pub) == len(astype(x)) && bytesOf(pub) == bytesOf(astype(x)))
+//@   ensures !istype(x) ==> result == false
